@@ -1,0 +1,28 @@
+//go:build verif
+
+package geoip
+
+import "github.com/AdguardTeam/AdGuardDNS/internal/agdcache"
+
+// VerifC05WrapIPCache replaces the IP location cache of f with wrap applied to
+// it, so that the verification harness can observe (and schedule other calls
+// at) the cache operations of [File.Data] and [File.Refresh].  It must be
+// called before f is used concurrently.
+func VerifC05WrapIPCache(
+	f *File,
+	wrap func(c agdcache.Interface[any, *Location]) (w agdcache.Interface[any, *Location]),
+) {
+	f.ipCache = wrap(f.ipCache)
+}
+
+// VerifC05LockFree reports whether neither the write lock nor a read lock of
+// f's mutex is held at the moment of the call.
+func VerifC05LockFree(f *File) (ok bool) {
+	if !f.mu.TryLock() {
+		return false
+	}
+
+	f.mu.Unlock()
+
+	return true
+}
